@@ -428,6 +428,44 @@ def cli_door_leg(res):
     res.count('cli_door_failures', nbad)
 
 
+def table_path_leg(res, tier, seed):
+    """which file a JOIN table name denotes: Model/TablePath.lean (findTablePath; theorems C13_table_path_exists, C13_table_path_is_a_candidate,
+    C13_table_path_prefers_the_name_itself, C16_table_path_same_name_different_directories) against the REAL find_table_path over a real directory tree"""
+    from common import enc_str, enc_list
+    rnd = random.Random(seed * 911 + 13)
+    all_files = ['/w/j.csv', '/d1/j.csv', '/d2/j.csv', '/h/j.csv', '/h/t.csv', '/d1/sub/j.csv', '/w/sub/j.csv', '/abs/j.csv', '/d1/nick', '/w/~']
+    ids = ['j.csv', 'sub/j.csv', '~/j.csv', '~/t.csv', '~', '/abs/j.csv', '/d2/j.csv', 'nick', 'nick2', 'missing.csv', 't.csv', '~x', 'sub', '/d1']
+    dirs = [None, '/d1', '/d2', '/d1/', '/d3', '/w', '/h']
+    indexes = [None, ['nick\t/h/t.csv'], ['nick\t/nonexistent', 'nick\t/h/t.csv'], ['nick'], ['nick2\t/d1/j.csv\textra', ''], ['j.csv\t/h/t.csv'], ['missing.csv\t/d2/j.csv', 'nick\t/d1/sub/j.csv'],
+               ['/abs/j.csv\t/h/t.csv'], ['other\t/h/t.csv']]
+    lines = []
+    for _ in range(1500 if tier == 'quick' else 20000):
+        files = [f for f in all_files if rnd.random() < 0.45]
+        existing = set(['/w', '/h'])
+        for f in files:
+            parts = f.split('/')
+            for k in range(2, len(parts) + 1):
+                existing.add('/'.join(parts[:k]))
+        idx = rnd.choice(indexes)
+        if idx is not None:
+            existing.add('/h/.rbql_table_names')
+        md = rnd.choice(dirs)
+        lines.append('tablepath %s %s %s %s %s %s' % (enc_str('/w'), enc_str('/h'), 'N' if md is None else 'S' + enc_str(md), enc_str(rnd.choice(ids)), enc_list(sorted(existing)),
+                                                     'N' if idx is None else 'S' + enc_list(idx)))
+    # the impl op creates FILES for the listed paths that are not prefixes of other listed paths, directories otherwise
+    bad = common.differential(res, lines, impls=('py',))
+    for ln in lines:
+        res.nontrivial.add(('tablepath', ln))
+    res.count('table_path_cases', len(lines))
+    res.count('table_path_disagreements', len(bad))
+    for b in bad[:3]:
+        from common import dec_str, dec_list
+        a = b['line'].split(' ')
+        res.violations.append({'property': 'C13', 'impl': 'py', 'why': 'find_table_path answers differently from its model (Model/TablePath.lean)', 'main_table_dir': None if a[3] == 'N' else dec_str(a[3][1:]),
+                               'table_id': dec_str(a[4]), 'existing_paths (cwd /w, home /h)': dec_list(a[5]), 'rbql_table_names': None if a[6] == 'N' else dec_list(a[6][1:]),
+                               'model_says': b['model'], 'impl_says': b['got'], 'line': b['line'], 'case_key': 'C13|tablepath|' + b['line']})
+
+
 def cli_encoding_leg(res):
     """non-ASCII data under --encoding utf-8 / latin-1 through the command line, file and stdin in, file and stdout out: the BYTES written are the
     result table of query_table encoded with the requested encoding, whatever the locale of the process says about stdout (direct oracle)"""
@@ -492,6 +530,7 @@ def run(res, tier, seed):
     res.rule = RULE
     cli_dialect_leg(res)
     cli_door_leg(res)
+    table_path_leg(res, tier, seed)
     cli_encoding_leg(res)
     res.assumptions = ['pandas itertuples / DataFrame(rows, columns) and sqlite3 cursors are faithful adapters (assumed; tied here)', 'argparse mapping is tied, not proved']
     rnd = random.Random(seed * 7001 + 13)
